@@ -522,7 +522,12 @@ def _model_env(model, ex):
     return env
 
 
+INEXACT = [False]
+
+
 def _z3num(val):
+    if z3.is_algebraic_value(val):
+        INEXACT[0] = True
     if z3.is_rational_value(val):
         return Fraction(val.numerator_as_long(), val.denominator_as_long())
     if z3.is_algebraic_value(val):
